@@ -196,6 +196,30 @@ pub fn expand_self_in_impl_generics(generics: &Generics, to: &Type) -> Generics 
     expand_self(&generics, &to_hr)
 }
 
+/// `Ty<N>` -> `Ty<{ N }>` for the const parameters of `generics`: a bare `N` in a generic argument list is looked up
+/// as a type first, so a type or trait named like the const parameter at the use site would capture it (E0747).
+pub fn brace_const_args(mut ty: Type, generics: &Generics) -> Type {
+    if let Type::Path(p) = &mut ty {
+        if let Some(syn::PathSegment {
+            arguments: syn::PathArguments::AngleBracketed(args),
+            ..
+        }) = p.path.segments.last_mut()
+        {
+            for a in args.args.iter_mut() {
+                let is_const_param = matches!(&*a, syn::GenericArgument::Type(Type::Path(t))
+                    if t.qself.is_none() && generics.const_params().any(|c| t.path.is_ident(&c.ident)));
+                if is_const_param {
+                    let syn::GenericArgument::Type(t) = &*a else {
+                        unreachable!()
+                    };
+                    *a = syn::GenericArgument::Const(parse_quote!({ #t }));
+                }
+            }
+        }
+    }
+    ty
+}
+
 pub struct GenericParamSet {
     idents: HashSet<Ident>,
 }
